@@ -814,6 +814,16 @@ def run_job(job, seed=0, replay_dir=None, cross_check=0):
                     Sc, rout = real_outcome(wmodel)
                     ok, detail = same_outcome(out, rout, wmodel)
                     res["witnesses_validated"] += 1
+                    if ok and not rout.raised and ("other" in rout.extra or "second" in rout.extra):
+                        # relational jobs: the model agreed on the first execution, but the real second execution is only
+                        # reachable through the property itself - evaluate it on the real outcome as well
+                        try:
+                            robl2 = job.holds(S, rout)
+                            bad2 = [lab for lab, f in robl2 if z3.is_false(z3.simplify(_ev(wmodel, f)))]
+                        except Exception:
+                            bad2 = []
+                        if bad2 and not any(z3.is_true(_ev(wmodel, p)) for _, p in known):
+                            res["violations"].append(_violation(job, bad2[0], Sc, rout, out, wmodel, replay_dir, via="witness"))
                     if not ok:
                         # the real code may simply violate the property on this input: check it directly
                         try:
